@@ -302,10 +302,38 @@ func (w *World) genRanges() []Op {
 	return []Op{{K: "ranges", A: start, B: count}}
 }
 
+// genStraddle (boundary mode): a heavier header on the tip just below the automatic clean height and
+// a fork of ordinary headers from the old tip that overtakes a few heights later, so the best chain can
+// pass the clean height by reorganisation instead of by extension.
+func (w *World) genStraddle() []Op {
+	t := w.c.T
+	var out []Op
+	base := w.tip
+	heavy := Op{K: "mint", A: w.newSerial(), B: base.Serial, C: 1 + t.Draw(2), D: 600, E: 1}
+	out = append(out, heavy, Op{K: "submit", A: heavy.A, B: 0})
+	prev := base.Serial
+	if t.Chance(1, 3) && base.Parent != nil {
+		prev = base.Parent.Serial
+	}
+	for i, k := 0, 2+t.Draw(6); i < k; i++ {
+		m := Op{K: "mint", A: w.newSerial(), B: prev, C: 0, D: 600, E: 1}
+		out = append(out, m, Op{K: "submit", A: m.A, B: t.Draw(w.peers)})
+		prev = m.A
+	}
+	w.c.Probe("boundary-straddle-attempt")
+	return out
+}
+
 // gen emits the next operations.
 func (w *World) gen() []Op {
 	o := w.o
 	t := w.c.T
+	if w.boundary && w.nextSer > 1 && !w.straddled {
+		w.straddled = true
+		if t.Chance(3, 4) {
+			return w.genStraddle()
+		}
+	}
 	if w.large && (w.nextSer == 1 || t.Chance(1, 12)) {
 		n := 100 + t.Draw(1000)
 		if w.nextSer == 1 {
@@ -314,10 +342,20 @@ func (w *World) gen() []Op {
 		if w.c.Thorough() && w.nextSer == 1 && t.Chance(1, 6) {
 			n = 10050 + t.Draw(400) // beyond the real prune depth
 		}
+		if w.boundary {
+			if w.nextSer != 1 {
+				return w.genMintStep() // stay near the line: no further bulk growth
+			}
+			n = realPruneDepth - 1 - t.Draw(5)
+			w.c.Probe("boundary-mode")
+		}
 		op := Op{K: "grow", A: n, B: w.tip.Serial, C: w.nextSer}
 		w.nextSer += n
 		w.c.Nontrivial()
 		return []Op{op}
+	}
+	if o.WSplit > 0 && len(w.splits) < 2 && w.tip.Height >= 1 && t.Chance(o.WSplit, 1000) {
+		return []Op{{K: "split", A: w.newSerial()}}
 	}
 	switch t.Weighted([]int{o.WMint, o.WDeliver, o.WClean, o.WSave, o.WReload, o.WSubscribe, o.WQuery, o.WAdversarial, o.WMark, o.WUnmark, o.WProof, o.WLocator, o.WCrash}) {
 	case 0:
